@@ -83,7 +83,14 @@ fn write_str(out: &mut String, s: &str) {
             '\n' => out.push_str("\\n"),
             '\r' => out.push_str("\\r"),
             '\t' => out.push_str("\\t"),
-            c if (c as u32) < 0x20 || c == '\u{2028}' || c == '\u{2029}' || c == '\u{feff}' => {
+            c if (c as u32) < 0x20
+                || ((c as u32) >= 0x7f && (c as u32) <= 0xa0)
+                || c == '\u{2028}'
+                || c == '\u{2029}'
+                || c == '\u{feff}'
+                || c == '\u{1680}'
+                || ((c as u32) >= 0x2000 && (c as u32) <= 0x200f) =>
+            {
                 let _ = write!(out, "\\u{:04x}", c as u32);
             }
             c => out.push(c),
